@@ -465,6 +465,62 @@ def row_groups(fam, asg):
     return out
 
 
+def _maxima_task(t):
+    """Relations (b) and (d) around the written highest-severity vectors of every macrovector
+    (spaces.v4_written_maxima_block) with one Modified metric defined: changing the overridden
+    base metric, and leaving out E / CR / IR / AR where the written value is the one the
+    specification declares equivalent to Not Defined, must not change the score."""
+    lo, hi = t
+    from ..engine import product
+    blk = spaces.v4_written_maxima_block()
+    blk.prefix = T.PREFIX["4.0"]
+    acc = sweep.new_acc()
+    nC = len(blk.C)
+    for ab in range(lo, hi):
+        for ic in range(nC):
+            vec, asg = product._point(blk, ab, ic)
+            f = vec[len(blk.prefix):].split("/")
+            names = [x.split(":")[0] for x in f]
+            f = [x for i, x in enumerate(f) if names[i] not in names[i + 1:]]
+            asg = dict(x.split(":") for x in f)
+            base = blk.prefix + "/".join(f)
+            groups = []
+            mods = [m for m in asg if m in T.V4_MODIFIED]
+            vs = []
+            for m in mods:
+                b = m[1:]
+                vs += [blk.prefix + "/".join("%s:%s" % (k, (v if k != b else nv)) for k, v in (x.split(":") for x in f))
+                       for nv in T.V4[b] if nv != asg[b]]
+            if vs:
+                groups.append(("d", vs))
+            eq = [m for m in V4_EQUIV if asg.get(m) == V4_EQUIV[m]]
+            vs = [blk.prefix + "/".join(x for x in f if x.split(":")[0] != m) for m in eq]
+            if len(eq) > 1:
+                vs.append(blk.prefix + "/".join(x for x in f if x.split(":")[0] not in eq))
+            if vs:
+                groups.append(("b", vs))
+            for rel, vs in groups:
+                name = "%s.v4.written_highest_severity_vectors" % rel
+                acc["n"] += 1 + len(vs)
+                acc["calls"] += 2 * (1 + len(vs))
+                try:
+                    diffs, sb = check_group("4.0", base, vs, (0,))
+                except Exception as e:  # noqa
+                    sweep.bad(acc, {"what": "%s: %s raised on %r or a variant: %s" % (name, type(e).__name__, base, e),
+                                    "kind": "raise", "family": "4.0", "relation": name, "input": [base] + vs[:50],
+                                    "slots": [0], "signature": {"kind": "raise"}})
+                    continue
+                acc["cmp"] += len(vs)
+                acc["nontrivial"] += len(vs)
+                for v, s_, x, y in diffs[:2]:
+                    sweep.bad(acc, {"what": "%s: slot %d is %r for %r but %r for %r" % (name, s_, x, base, y, v),
+                                    "kind": "interference", "family": "4.0", "relation": name, "input": [base, v],
+                                    "slots": [s_], "signature": {"kind": "interference", "relation": rel}})
+                acc["nbad"] += max(0, len(diffs) - 2)
+    acc["extra"] = {"maxima.v4": acc["n"]}
+    return acc
+
+
 def _row_task(t):
     fam, lo, hi = t
     acc = sweep.new_acc()
@@ -513,6 +569,8 @@ def run(ctx, res):
         for lo, hi in core.split_range(ROWS[ctx.tier][fam], 24):
             rtasks.append((fam, lo, hi))
     accs += core.task_map(_row_task, rtasks)
+    mb = spaces.v4_written_maxima_block()
+    accs += core.task_map(_maxima_task, core.split_range(len(mb.A) * len(mb.B), 32))
     res.coverage["interaction_rows"] = ROWS[ctx.tier]
     tot = sweep.merge(accs)
     per = {}
